@@ -168,6 +168,24 @@ class Ctx:
                                'rt': root_target, 'mode': mode, 'names': names, 'acc': acc})
 
 
+def _boom_class():
+    class Boom(Exception):
+        pass
+    return Boom
+
+
+BoomA, BoomB = _boom_class(), _boom_class()      # two distinct classes, both named 'Boom'
+
+
+def error_class(e):
+    """the class observation of an error: which of the same-named user classes it is an
+    instance of, else the most specific well-known class name"""
+    a, b = isinstance(e, BoomA), isinstance(e, BoomB)
+    if a or b:
+        return 'BoomA+BoomB' if a and b else ('BoomA' if a else 'BoomB')
+    return codec.exc_class_name(e)
+
+
 def _apply(f, t):
     if f == 'id':
         return t
@@ -175,6 +193,10 @@ def _apply(f, t):
         return t + 1
     if f == 'boom':
         raise ValueError('boom')
+    if f == 'boomA':
+        raise BoomA('boom')
+    if f == 'boomB':
+        raise BoomB('boom')
     raise AssertionError(f)
 
 
@@ -336,6 +358,8 @@ class Builder:
             return Coalesce(*subs)
         if op == 'arglist':        # a list ARGUMENT (argument mode rebuilds it and evaluates the sub-specs)
             return [self.spec(c, at + (i,)) for i, c in enumerate(n['c'], 1)]
+        if op == 'scopelit':       # an empty literal container as a scope value, written through the scope
+            return (S(seen={}), GA.seen['k'], S.seen)
         if op == 'check':
             return Check(equal_to=build_value(n['eq']), validate=VGate(self.ctx, at + (1,), n['f']))
         if op == 'tplus':          # T arithmetic with a container operand
@@ -345,6 +369,8 @@ class Builder:
         if op == 'refuse':
             return Ref(n['name'])
         if op == 'lastvar':        # a scope variable object: bound, assigned into per item, read
+            if n.get('y'):         # ... with a yield point between the writes and the read
+                return (S(v=Vars({'n': n['init']})), [GA.v.n], Probe(self.ctx, at + (3,), 'id'), S.v.n)
             return (S(v=Vars({'n': n['init']})), [GA.v.n], S.v.n)
         if op == 'invoke':         # star-kwargs first, then constants
             return Invoke(kwfn).star(kwargs=self.spec(n['c'], at + (1,))).constants(**{n['k']: build_value(n['v'])})
@@ -382,7 +408,7 @@ def run_call(ctx, bc):
             text = '<str failed: %r>' % (e2,)
         finally:
             ctx.local.render_gate = False
-        return {'ok': False, 'v': {'k': 'none'}, 'cls': codec.exc_class_name(e), 'obs': ctx.obs()}, text + _kept_changed(ctx)
+        return {'ok': False, 'v': {'k': 'none'}, 'cls': error_class(e), 'obs': ctx.obs()}, text + _kept_changed(ctx)
     return {'ok': True, 'v': project_value(res), 'cls': '', 'obs': ctx.obs()}, _kept_changed(ctx)
 
 
